@@ -209,7 +209,8 @@ def run_exec(work, binary, scenarios, tag, test="TestExec", timeout=900, extra_e
         err = r.stdout + r.stderr
         if r.returncode in (-9, 137):
             raise Infra("executor killed (out of memory?)")
-        crashes.append({"scn": scenarios[idx - 1]["id"], "index": idx, "stderr": err[-6000:]})
+        why = [l for l in err.splitlines() if l.startswith("panic:") or l.startswith("fatal error:")][:2]
+        crashes.append({"scn": scenarios[idx - 1]["id"], "index": idx, "stderr": "\n".join(why) + "\n...\n" + err[-6000:]})
         log("executor crashed in scenario %s" % scenarios[idx - 1]["id"])
         # drop the partial trace of the crashed scenario
         keep = []
